@@ -24,6 +24,25 @@ class CannotInline(Exception):
     pass
 
 
+def _clone(node):
+    """Deep copy of an AST (sub)tree along its syntactic fields only: the `_parent` back links the model puts
+    on nodes must not be followed (copy.deepcopy would climb to the module and copy all of it)."""
+    if isinstance(node, list):
+        return [_clone(x) for x in node]
+    if not isinstance(node, ast.AST):
+        return node
+    new = node.__class__()
+    for f in node._fields:
+        if hasattr(node, f):
+            setattr(new, f, _clone(getattr(node, f)))
+    for a in ("lineno", "col_offset", "end_lineno", "end_col_offset"):
+        if hasattr(node, a):
+            setattr(new, a, getattr(node, a))
+    if hasattr(node, "_annotation"):
+        new._annotation = node._annotation
+    return new
+
+
 def _has_return(node):
     """Return statements of this statement (not of nested functions)."""
     stack = [node]
@@ -55,7 +74,7 @@ def _terminates(stmts):
 
 
 def _cp(stmts):
-    return [copy.deepcopy(s) for s in stmts]
+    return [_clone(s) for s in stmts]
 
 
 def _set_ret(retvar, value, like):
@@ -222,7 +241,7 @@ class Flattener:
             if g.is_classmethod:
                 if recv is None:
                     raise CannotInline("classmethod receiver")
-                bound[selfp] = ast.copy_location(ast.Attribute(value=copy.deepcopy(recv), attr="__class__", ctx=ast.Load()), call) if not (isinstance(recv, ast.Name) and recv.id in self.m.classes) else copy.deepcopy(recv)
+                bound[selfp] = ast.copy_location(ast.Attribute(value=_clone(recv), attr="__class__", ctx=ast.Load()), call) if not (isinstance(recv, ast.Name) and recv.id in self.m.classes) else _clone(recv)
             else:
                 if recv is None:
                     raise CannotInline("unbound method call")
@@ -255,7 +274,7 @@ class Flattener:
             else:
                 new = p if (p not in caller_names and not is_closure) else p + sfx
                 mapping[p] = new
-                pre.append(ast.copy_location(ast.Assign(targets=[ast.copy_location(ast.Name(id=new, ctx=ast.Store()), call)], value=copy.deepcopy(x), lineno=call.lineno), call))
+                pre.append(ast.copy_location(ast.Assign(targets=[ast.copy_location(ast.Name(id=new, ctx=ast.Store()), call)], value=_clone(x), lineno=call.lineno), call))
         for name in sorted(stored - set(params)):
             if name in inner_args:
                 raise CannotInline("lambda parameter shadows %s" % name)
@@ -372,7 +391,7 @@ class Flattener:
             return node
         self._active.append(fn.qual)
         try:
-            new = copy.deepcopy(node)
+            new = _clone(node)
             new.body = self._flatten_body(fn, new.body, _all_names(node))
             ast.fix_missing_locations(new)
         finally:
@@ -637,8 +656,8 @@ def _desugar_body(stmts):
             changed = True
         elif isinstance(st, ast.Assign) and isinstance(st.value, ast.IfExp) and len(st.targets) == 1 and isinstance(st.targets[0], ast.Name):
             e = st.value
-            a = ast.copy_location(ast.Assign(targets=[copy.deepcopy(st.targets[0])], value=e.body, lineno=st.lineno), st)
-            b = ast.copy_location(ast.Assign(targets=[copy.deepcopy(st.targets[0])], value=e.orelse, lineno=st.lineno), st)
+            a = ast.copy_location(ast.Assign(targets=[_clone(st.targets[0])], value=e.body, lineno=st.lineno), st)
+            b = ast.copy_location(ast.Assign(targets=[_clone(st.targets[0])], value=e.orelse, lineno=st.lineno), st)
             body, _ = _desugar_body([a])
             orelse, _ = _desugar_body([b])
             out.append(ast.copy_location(ast.If(test=e.test, body=body, orelse=orelse), st))
@@ -730,7 +749,7 @@ def _inline_method_aliases(fnode):
         if any(u.lineno < st.lineno for u in uses):
             continue
         for u in uses:
-            u._parent.func = ast.copy_location(copy.deepcopy(st.value), u)
+            u._parent.func = ast.copy_location(_clone(st.value), u)
         changed = True
     return changed
 
